@@ -168,7 +168,21 @@ class C06Yields(Monitor):
             dap = float(g[GX["dap"]])
             pb = 0.0 if (self.prev is None or dap == 1 or self.prev[0] != season) else self.prev[1]
             db = b - pb
-            wp = float(crop.WP) * float(crop.fCO2)
+            # the CO2 adjustment is re-derived from the CONFIGURED concentration of the year in which this season was planted
+            if dap == 1 or getattr(self, "co2_season", None) != season:
+                from ..refmodels import configured_co2, ref_fco2
+                import pandas as _pd
+                from .. import spec as _S
+
+                self.co2_season = season
+                yr = _pd.Timestamp(pre.date).year if dap == 1 else _pd.Timestamp(m._clock_struct.planting_dates[season]).year
+                conc = configured_co2(ctx.spec.get("co2"), yr, _S.parse_date(ctx.spec["start"]).year)
+                self.fco2_ref = ref_fco2(conc, float(m._param_struct.CO2.ref_concentration), float(crop.bsted), float(crop.bface), float(crop.fsink), float(crop.WP))
+                if abs(self.fco2_ref - float(crop.fCO2)) > 1e-12:
+                    ctx.violate("co2-adjustment-of-the-planting-year", t, observed={"fCO2": float(crop.fCO2)}, expected={"fCO2": self.fco2_ref, "ppm": conc, "planting_year": yr}, season=season)
+                if conc > float(m._param_struct.CO2.ref_concentration):
+                    ctx.hit("co2_above_reference_season")
+            wp = float(crop.WP) * float(self.fco2_ref)
             hi_b = wp * tr / et0
             lo_b = hi_b * min(1.0, float(crop.WPy) / 100.0)
             hi_b = hi_b * max(1.0, float(crop.WPy) / 100.0)
